@@ -473,7 +473,9 @@ func (this *BlockCompressor) Compress() (int, uint64) {
 		if fi.IsDir() {
 			inputIsDir = true
 
-			if len(formattedInName) > 1 && formattedInName[len(formattedInName)-1] == '.' {
+			// Remove the '.' of the "dir/." spelling (no recursion), not the last
+			// character of a directory whose name merely ends with a dot
+			if strings.HasSuffix(formattedInName, string(os.PathSeparator)+".") {
 				formattedInName = formattedInName[0 : len(formattedInName)-1]
 			}
 
